@@ -125,6 +125,43 @@ func TestC06Progress(t *testing.T) {
 			}
 		}
 	}
+	// a keepalive ping travels in the data sequence space: the k-th ping of
+	// the client is lost, and data is queued behind it before anything is
+	// resent; the ping must be retransmitted like any other packet or the
+	// receiver waits for its sequence number for ever
+	for _, n := range []uint8{2, 20} {
+		for _, static := range []time.Duration{time.Second, 0} {
+			for _, lostPing := range []int{1, 2} {
+				for _, burst := range []int{1, 3} {
+					n, static, lostPing, burst := n, static, lostPing, burst
+					pings := 0
+					dec := func(from string, idx int, pkt []byte, now time.Duration) vnet.Fate {
+						if from == "c" && len(pkt) >= 4 && pkt[0] == gbn.DATA && pkt[3] == gbn.TRUE {
+							pings++
+							if pings == lostPing {
+								return vnet.Fate{Copies: 0}
+							}
+						}
+						return vnet.Fate{Copies: 1}
+					}
+					cfg := gbnrun.Config{N: n, Static: static, Latency: 20 * time.Millisecond, Decide: dec,
+						Msgs: [2]int{burst, 0},
+						Ping: [2]time.Duration{400 * time.Millisecond, 0},
+						Pong: [2]time.Duration{90 * time.Second, 0},
+						Gap: func(ep string, id int) time.Duration {
+							if id == 1 {
+								// after the lost ping, before its resend
+								return time.Duration(400*lostPing+150) * time.Millisecond
+							}
+							return 0
+						}}
+					scens = append(scens, scen{map[string]any{"kind": "pingloss", "n": int(n),
+						"staticMs": ms(static), "lostPing": lostPing, "burst": burst, "ka": true,
+						"latMs": 20}, cfg, 3 * time.Second, time.Second, true})
+				}
+			}
+		}
+	}
 	for si, sc := range scens {
 		sc := sc
 		noteCurrent(dir, sc.desc)
